@@ -88,7 +88,8 @@ def random_state_vector(
         return np.divide(ret_vec, np.linalg.norm(ret_vec))
 
     # Schmidt rank is full, so ignore it.
-    ret_vec = gen.random((dim, 1))
+    total_dim = int(np.prod(dim))
+    ret_vec = gen.random((total_dim, 1))
     if not is_real:
-        ret_vec = ret_vec + 1j * gen.random((dim, 1))
+        ret_vec = ret_vec + 1j * gen.random((total_dim, 1))
     return np.divide(ret_vec, np.linalg.norm(ret_vec))
